@@ -205,15 +205,17 @@ def solve_cvc5(items, timeout_ms=20000):
     lines += ["(declare-const e%d (_ BitVec 32))" % i for i in range(1, 32)]
     for i, (decls, q) in enumerate(items):
         lines.append("(push 1)")
+        lines.append('(echo "Q%d")' % i)   # first: an (error ...) line of this query must land in this query's chunk
         lines += decls
-        lines += ["(assert %s)" % q, '(echo "Q%d")' % i, "(check-sat)", "(pop 1)"]
+        lines += ["(assert %s)" % q, "(check-sat)", "(pop 1)"]
     p = subprocess.run(["cvc5", "--incremental", "--lang", "smt2", "--tlimit-per=%d" % timeout_ms], input="\n".join(lines) + "\n",
                        stdout=subprocess.PIPE, stderr=subprocess.STDOUT, text=True, timeout=3600)
     chunks = re.split(r'^"?Q(\d+)"?$', p.stdout, flags=re.M)
     res = {}
     for k in range(1, len(chunks), 2):
         c = chunks[k + 1]
-        st = (c.strip().split("\n") or ["?"])[0].strip()
+        words = [w.strip() for w in c.strip().split("\n") if w.strip() in ("sat", "unsat", "unknown")]
+        st = words[-1] if words else "?"
         res[int(chunks[k])] = "error" if "(error" in c else (st if st in ("sat", "unsat") else "unknown")
     if "(error" in chunks[0]:
         return ["error"] * len(items)
@@ -227,15 +229,17 @@ def solve(items, timeout_ms=20000):
     lines += ["(declare-const e%d (_ BitVec 32))" % i for i in range(1, 32)]
     for i, (decls, q) in enumerate(items):
         lines.append("(push 1)")
+        lines.append('(echo "Q%d")' % i)   # first: an (error ...) line of this query must land in this query's chunk
         lines += decls
-        lines += ["(assert %s)" % q, '(echo "Q%d")' % i, "(check-sat)", "(pop 1)"]
+        lines += ["(assert %s)" % q, "(check-sat)", "(pop 1)"]
     p = subprocess.run(["/usr/bin/z3", "-in", "-t:%d" % timeout_ms], input="\n".join(lines) + "\n", stdout=subprocess.PIPE,
                        stderr=subprocess.STDOUT, text=True, timeout=7200)
     chunks = re.split(r'^"?Q(\d+)"?$', p.stdout, flags=re.M)
     res = {}
     for k in range(1, len(chunks), 2):
         c = chunks[k + 1]
-        st = (c.strip().split("\n") or ["?"])[0].strip()
+        words = [w.strip() for w in c.strip().split("\n") if w.strip() in ("sat", "unsat", "unknown")]
+        st = words[-1] if words else "?"
         res[int(chunks[k])] = "error" if "(error" in c else (st if st in ("sat", "unsat") else "unknown")
     if "(error" in chunks[0]:
         return ["error"] * len(items)
